@@ -330,11 +330,15 @@ def execute(case, ctx):
         desc = f'put(None, {i}) on {site} (len {n})' if delete else f'put(one element, {i}) on {site} (len {n})'
 
         if not delete:
-            if kind not in PLAIN_KINDS and kind != 'Global.names':
+            if kind not in PLAIN_KINDS and kind not in ('Global.names', 'Call._args', 'ClassDef._bases'):
                 raise Skip('single_put_kind_not_modelled')
 
             try:
-                elems = new_elements(kind, donor)
+                if kind in ('Call._args', 'ClassDef._bases'):  # merged positional / keyword arguments in source order
+                    c = ast.parse(f'_({donor})', mode='eval').body
+                    elems = sorted(c.args + c.keywords, key=lambda x: (x.lineno, x.col_offset))
+                else:
+                    elems = new_elements(kind, donor)
             except SyntaxError:
                 raise Skip('donor_unparseable') from None
 
@@ -396,6 +400,7 @@ def execute(case, ctx):
             raise Violation('C03.single', f'{desc}: field is not old with exactly position {pi} changed\n--- before ---\n{src[:400]}\n--- after ---\n{root.src[:400]}', f'single:{site}')
 
         check_rest_unchanged(tree0, tree1, path, parent, field, desc, site)
+        live_equals_source(root, tree1, desc, site)
 
         if i < 0 or start == 7 or '\n' in (ast.get_source_segment(src, parent) or '') if hasattr(parent, 'lineno') else False:
             ctx.mark_nontrivial(case, {'op': desc, 'src': src[:200]} if case['csel'] % 31 == 0 else None)
@@ -532,6 +537,8 @@ def execute(case, ctx):
                                     f'model_sig:{site}')
 
             check_rest_unchanged(tree0, tree1, path, parent, field, desc, site)
+
+    live_equals_source(root, tree1, desc, site)
 
     # ---- entry point agreement
     for route in ROUTES:
@@ -685,6 +692,28 @@ def execute(case, ctx):
 
     if changes_len or start < 0 or stop < 0 or start == 7 or stop == 7 or abs(start) > n or abs(stop) > n or virtual:
         ctx.mark_nontrivial(case, {'op': desc, 'src': src[:200], 'after': after_src[:200]} if case['csel'] % 31 == 0 else None)
+
+
+def live_equals_source(root, tree1, desc, site):
+    """The container operation must leave the live tree equal to the parse of the new source (element order inside the real fields included):
+    a put through a virtual field that re-partitions args / keywords is where the two can drift apart while the text is right."""
+
+    from ..oracle import first_diff
+
+    for n in ast.walk(root.a):  # without norm an emptied / single-element container is documented to be left as an invalid intermediate state
+        if (isinstance(n, ast.BoolOp) and len(n.values) < 2 or isinstance(n, ast.Compare) and not n.ops or isinstance(n, ast.MatchOr) and len(n.patterns) < 2
+            or isinstance(n, (ast.ListComp, ast.SetComp, ast.DictComp, ast.GeneratorExp)) and not n.generators or isinstance(n, (ast.With, ast.AsyncWith)) and not n.items
+            or isinstance(n, (ast.Assign, ast.Delete)) and not n.targets or isinstance(n, (ast.Import, ast.ImportFrom, ast.Global, ast.Nonlocal)) and not n.names
+            or isinstance(n, ast.Set) and not n.elts or isinstance(n, (ast.Try, ast.TryStar)) and not n.handlers and not n.finalbody
+            or isinstance(n, ast.Match) and not n.cases
+            or any(isinstance(getattr(n, f, None), list) and not getattr(n, f) for f in ('body',) if not isinstance(n, ast.Module))
+        ):
+            return
+
+    live, want = c07.norm_dump(root.a), c07.norm_dump(tree1)
+
+    if live != want:
+        raise Violation('C03.live_tree', f'{desc}: the live tree differs from the parse of the resulting source {first_diff(live, want)}\n--- after ---\n{root.src[:500]}', f'live:{site}')
 
 
 def check_rest_unchanged(tree0, tree1, path, parent, field, desc, site):
